@@ -47,6 +47,7 @@ type vTxObs struct {
 	// RightSigner: the key used to sign belongs to the single address that
 	// every message names as its signer.
 	RightSigner bool
+	Forged      bool
 	TxBytes     []byte
 	Hashes      [][]byte
 }
@@ -143,6 +144,16 @@ func (h *vHist) Do(gap int, signer *vActor, msgs ...sdk.Msg) *vTxObs {
 }
 
 func (h *vHist) DoNote(note string, gap int, signer *vActor, msgs ...sdk.Msg) *vTxObs {
+	return h.doTx(note, gap, signer, nil, msgs...)
+}
+
+// DoForged: the tx claims `claim` as signer (public key, account number,
+// sequence) but carries a signature made with signer's key.
+func (h *vHist) DoForged(note string, gap int, signer, claim *vActor, msgs ...sdk.Msg) *vTxObs {
+	return h.doTx(note, gap, signer, claim, msgs...)
+}
+
+func (h *vHist) doTx(note string, gap int, signer, claim *vActor, msgs ...sdk.Msg) *vTxObs {
 	if h.stopped || h.n >= h.MaxSteps {
 		h.stopped = true
 		return &vTxObs{Pre: h.last, Post: h.last, Signer: signer, Msgs: msgs}
@@ -157,6 +168,9 @@ func (h *vHist) DoNote(note string, gap int, signer *vActor, msgs ...sdk.Msg) *v
 		preFresh = true
 	}
 	step := vStep{Gap: gap, Signer: signer.Idx, Note: note, Height: h.c.height}
+	if claim != nil {
+		step.BadSign = claim.Idx + 1
+	}
 	for _, m := range msgs {
 		bz, err := h.c.app.appCodec.MarshalInterfaceJSON(m)
 		if err != nil {
@@ -166,8 +180,8 @@ func (h *vHist) DoNote(note string, gap int, signer *vActor, msgs ...sdk.Msg) *v
 	}
 	exp, single := vExpectedSigner(msgs)
 	o := &vTxObs{Idx: h.n, Height: h.c.height, Gap: gap, Signer: signer, Msgs: msgs, Pre: pre, PreFresh: preFresh, Note: note, Hashes: hashes,
-		RightSigner: single && exp == signer.Bech}
-	bz, err := h.c.signTx(signer, msgs)
+		RightSigner: single && exp == signer.Bech && claim == nil, Forged: claim != nil}
+	bz, err := h.c.signTx(signer, claim, msgs)
 	if err != nil {
 		// could not even be encoded (e.g. GetSigners panics on a malformed
 		// address): equivalent to a rejection before reaching the chain.
@@ -273,7 +287,11 @@ func vReplayHist(res *vs.Result, c vHistCase, mons []vMonitor) {
 				}
 				msgs = append(msgs, m)
 			}
-			h.DoNote(st.Note, st.Gap, h.c.actors[st.Signer], msgs...)
+			if st.BadSign > 0 {
+				h.DoForged(st.Note, st.Gap, h.c.actors[st.Signer], h.c.actors[st.BadSign-1], msgs...)
+			} else {
+				h.DoNote(st.Note, st.Gap, h.c.actors[st.Signer], msgs...)
+			}
 		}
 	})
 }
